@@ -31,6 +31,12 @@ RUSTC_PANICS = (
 )
 
 
+def relevant(desc, prop):
+    """Obligation labels may carry a property tag '(Cxx)' when a harness serves two properties."""
+    m = re.search(r"\((C\d\d)\)$", desc.strip())
+    return m is None or m.group(1) == prop
+
+
 def slug(s):
     return re.sub(r"[^a-z0-9]+", "-", s.lower()).strip("-")[:80]
 
@@ -65,7 +71,8 @@ def _limits():
 
 def _kani_cmd(harness, slot, playback=False, extra=()):
     cmd = [
-        "cargo", "kani", "--harness", "proofs::" + harness, "--exact", "-Z", "stubbing",
+        "cargo", "kani", "--harness", "proofs::" + harness, "--exact", "-Z", "stubbing", "--features", "hooks",
+        "--no-overflow-checks",
         "--target-dir", os.path.join(CACHE, "kani-target-%d" % slot),
     ]
     if playback:
@@ -196,7 +203,8 @@ def confirm(out, prop, unit, slot, failing_descs):
     """Counterexample -> concrete values -> native replay.  Returns list of Finding / adds inconclusive."""
     log("  [%s] counterexample candidate(s): %s -- extracting concrete values" % (unit.name, failing_descs))
     r = run_kani(unit.name, slot, max(unit.timeout * 4, 1800), playback=True, nocover=True, extra=unit.extra_args)
-    plays = [p for p in parse_playback(r["text"]) if p["kind"] != "cover"]
+    plays = [p for p in parse_playback(r["text"]) if p["kind"] != "cover" and relevant(p["desc"], prop)
+             and "unwinding assertion" not in p["desc"]]
     if not plays:
         out.inconclusive.append("%s: solver reported a failing obligation %s but no concrete values could be "
                                 "extracted (log %s)" % (unit.name, failing_descs, r["log"]))
@@ -231,13 +239,40 @@ def confirm(out, prop, unit, slot, failing_descs):
                                         unit.name, pl["desc"], json.dumps(nat)[:300], path))
 
 
+def confirm_must(out, prop, unit, descs):
+    """An unsatisfiable MUST-cover means its negation holds for all inputs.  Native confirmation: the body is
+    run several times against the real environment (real OS entropy); never seeing the cover confirms it."""
+    log("  [%s] required reachability unsatisfiable: %s -- confirming natively" % (unit.name, descs))
+    payload = {"property": prop, "engine": "K", "harness": unit.name, "vals": [], "must_never_covered": descs,
+               "note": "no solver inputs matter: the obligation fails for every input; replay runs the body natively"}
+    path = save_replay(prop, "%s--must" % unit.name, payload)
+    seen = set()
+    runs = 0
+    for _ in range(6):
+        nat = native_replay(unit.name, path)
+        for v in nat.values():
+            if isinstance(v, dict) and "covered" in v:
+                runs += 1
+                seen.update(v["covered"])
+    for d in descs:
+        key = "%s/%s" % (prop.lower(), slug(d.replace("MUST: ", "")))
+        if runs and d not in seen:
+            out.findings.append(Finding(prop, key, "%s is impossible: the negation holds for every input (solver) and in "
+                                        "%d native runs (harness %s)" % (d.replace("MUST: ", ""), runs, unit.name), path))
+        else:
+            out.inconclusive.append("%s: solver says '%s' is unreachable but native runs reached it (or replay failed)"
+                                    % (unit.name, d))
+
+
 def _run_unit(out, prop, unit, slot, lock):
     r = run_kani(unit.name, slot, unit.timeout, extra=unit.extra_args)
     checks = r["checks"]
     ev = {"engine": "K", "harness": unit.name, "wall_s": round(r["wall"], 1), "cbmc_time_s": r["time"],
           "checks": len(checks), "note": unit.note}
     failing = [c for c in checks if c["status"] == "FAILURE"]
-    covers = [c for c in checks if ".cover." in c["id"]]
+    must = [c for c in checks if ".cover." in c["id"] and c["desc"].startswith("MUST: ")]
+    must_bad = [c for c in must if c["status"] != "SATISFIED"]
+    covers = [c for c in checks if ".cover." in c["id"] and not c["desc"].startswith("MUST: ")]
     sat_covers = [c for c in covers if c["status"] == "SATISFIED"]
     bad_covers = [c for c in covers if c["status"] != "SATISFIED"]
     undetermined = [c for c in checks if c["status"] in ("UNDETERMINED", "ERROR")]
@@ -254,7 +289,9 @@ def _run_unit(out, prop, unit, slot, lock):
             out.units.append(ev)
         return
     unwind_fail = [c for c in failing if "unwinding assertion" in c["desc"]]
-    real_fail = [c for c in failing if "unwinding assertion" not in c["desc"]]
+    real_fail = [c for c in failing if "unwinding assertion" not in c["desc"] and relevant(c["desc"], prop)]
+    other_fail = [c for c in failing if "unwinding assertion" not in c["desc"] and not relevant(c["desc"], prop)]
+    must_bad = [c for c in must_bad if relevant(c["desc"], prop)]
     with lock:
         out.obligations += len(checks)
         out.covers += len(sat_covers)
@@ -270,14 +307,16 @@ def _run_unit(out, prop, unit, slot, lock):
         with lock:
             out.inconclusive.append("%s: unwinding assertion failed (%s) -- bound too small for the current code" % (
                 unit.name, unwind_fail[0]["loc"]))
-    if unit.expect_covers and (bad_covers or not covers):
+    if unit.expect_covers and (bad_covers or not covers) and not (real_fail or other_fail):
         with lock:
             out.inconclusive.append("%s: reachability covers not all satisfied: %s" % (
                 unit.name, [c["desc"] + "=" + c["status"] for c in bad_covers] or "no covers found"))
     if undetermined and not real_fail:
         with lock:
             out.inconclusive.append("%s: %d checks undetermined" % (unit.name, len(undetermined)))
-    ev["verdict"] = "holds" if not failing else "failing-obligations"
+    ev["verdict"] = "holds" if not (failing or must_bad) else "failing-obligations"
+    if must_bad and not unwind_fail:
+        confirm_must(out, prop, unit, [c["desc"] for c in must_bad])
     ev["failed"] = sorted(set(c["desc"] for c in real_fail))
     ev["covers_satisfied"] = len(sat_covers)
     if real_fail:
